@@ -294,7 +294,10 @@ func (st *state) exec(op *plan.Op, shared *scripted) (res plan.Res) {
 		}
 		if op.SlabOff > 0 && concSlab != nil {
 			// a window of the shared caller-owned buffer; it was filled before the barrier
-			ent = concSlab[op.SlabOff-1 : op.SlabOff-1+len(ent)]
+			// the caller (re)writes its entropy into its own window before every call
+			win := concSlab[op.SlabOff-1 : op.SlabOff-1+len(ent)]
+			copy(win, ent)
+			ent = win
 		} else if op.Arena && ent != nil && op.Buf == 0 {
 			// the caller recycles one buffer per length: new content, same backing array
 			a, ok := st.arena[len(ent)]
@@ -431,11 +434,16 @@ func (st *state) exec(op *plan.Op, shared *scripted) (res plan.Res) {
 			res.Out = hex.EncodeToString(a)
 			b := bip39.MnemonicToSeed(s, p)
 			res.Out2 = hex.EncodeToString(b)
-			// clobber the whole capacity of the second result, then re-read the first
+			// clobber the whole capacity of the second result, let the garbage collector and
+			// the finalizers run, then re-read the first
 			bb := b[:cap(b)]
 			for i := range bb {
 				bb[i] = 0xFF
 			}
+			runtime.GC()
+			time.Sleep(time.Millisecond)
+			runtime.GC()
+			runtime.Gosched()
 			res.Out1b = hex.EncodeToString(a)
 			// a later call with the same arguments must not see what the caller did to b
 			res.Out3 = hex.EncodeToString(bip39.MnemonicToSeed(s, p))
